@@ -58,12 +58,13 @@ def drive_operators(ctx, d):
     """K: generic operator classes at scalar / component / dataset level vs the function tables."""
     D, TT = T.types()
     from vtlengine.Exceptions import SemanticError
-    from vtlengine.Model import Component, DataComponent, Dataset, Role, Scalar
+    from vtlengine.Model import Component, DataComponent, Dataset, Role, Scalar, ScalarSet
     import vtlengine.Operators as O
     binp = dict(d["binp"]); unp = dict(d["unp"])
     rev = {v: k for k, v in TT.items()}
     generic_b = ("validate", "scalar_validation", "component_validation", "dataset_validation", "type_validation",
-                 "validate_type_compatibility", "apply_return_type_dataset", "component_scalar_validation", "dataset_scalar_validation")
+                 "validate_type_compatibility", "apply_return_type_dataset", "component_scalar_validation", "dataset_scalar_validation",
+                 "scalar_set_validation", "component_set_validation", "dataset_set_validation")
     generic_u = ("validate", "scalar_validation", "component_validation", "dataset_validation", "type_validation",
                  "validate_type_compatibility", "apply_return_type_dataset", "validate_dataset_type", "validate_scalar_type")
 
@@ -86,7 +87,7 @@ def drive_operators(ctx, d):
         return ("OK", rev.get(r.data_type))
 
     n_cls = n_skipped = disagreements = 0
-    hist = {"scalar": 0, "component": 0, "dataset": 0}
+    hist = {}
     for op in d["reg"]:
         cls = op["cls"]
         if op["arity"] == 2:
@@ -101,10 +102,18 @@ def drive_operators(ctx, d):
                     "component": lambda: cls.validate(DataComponent(name="a", data=None, data_type=TT[l], role=Role.MEASURE, nullable=True),
                                                       DataComponent(name="b", data=None, data_type=TT[r], role=Role.MEASURE, nullable=True)),
                     "dataset": lambda: cls.validate(mkds("DS_1", l), mkds("DS_2", r)),
+                    # operand ∘ scalar / set-of-scalars forms (the right operand is a constant or a collection, as in `x in {…}`)
+                    "scalar∘set": lambda: cls.validate(Scalar(name="a", data_type=TT[l], value=None), ScalarSet(data_type=TT[r], values=[])),
+                    "component∘set": lambda: cls.validate(DataComponent(name="a", data=None, data_type=TT[l], role=Role.MEASURE, nullable=True),
+                                                          ScalarSet(data_type=TT[r], values=[])),
+                    "dataset∘set": lambda: cls.validate(mkds("DS_1", l), ScalarSet(data_type=TT[r], values=[])),
+                    "component∘scalar": lambda: cls.validate(DataComponent(name="a", data=None, data_type=TT[l], role=Role.MEASURE, nullable=True),
+                                                             Scalar(name="b", data_type=TT[r], value=None)),
+                    "dataset∘scalar": lambda: cls.validate(mkds("DS_1", l), Scalar(name="b", data_type=TT[r], value=None)),
                 }
                 for lvl, f in forms.items():
                     got = outcome(f)
-                    hist[lvl] += 1
+                    hist[lvl] = hist.get(lvl, 0) + 1
                     ctx.count((op["name"], lvl, l, r))
                     exp = ("RAISE",) if want == "RAISE" else ("OK", want)
                     if got[0] != exp[0] or (got[0] == "OK" and got[1] != exp[1]):
@@ -128,7 +137,7 @@ def drive_operators(ctx, d):
                 }
                 for lvl, f in forms.items():
                     got = outcome(f)
-                    hist[lvl] += 1
+                    hist[lvl] = hist.get(lvl, 0) + 1
                     ctx.count((op["name"], lvl, o))
                     exp = ("RAISE",) if want == "RAISE" else ("OK", want)
                     if got[0] != exp[0] or (got[0] == "OK" and got[1] != exp[1]):
